@@ -108,6 +108,15 @@ var pairs = [][2]string{
 	{"> - a\n>\n>   b\n", "- a\n- b\n\n- c\n"},
 }
 
+// role-swap documents: the same fragment appears in two syntactic roles in two
+// documents of the pool (content-keyed caches must not leak between roles)
+var fragments = []string{"http://a.example/?q=\\*", "http://a.b/&amp;c", "http://a.b/%20x", "http://a.b/\\&amp;", "mailto:a\\_b@c.de", "http://x.y/&#35;z", "foo&copy;", "a\\&b", "x\\_y", "Title", "*x*", "a b", "&#x41;&#66;"}
+var roles = []string{"<@>\n", "[x](@)\n", "![i](@)\n", "[r]\n\n[r]: @\n", "[x](u \"@\")\n", "`@`\n", "```@\nc\n```\n", "# @\n", "[@](u)\n", "@\n", "<a href=\"@\">\n", "|@|\n|-|\n|@|\n", "x[^1]\n\n[^1]: @\n", "@\n: @\n", "- [ ] @\n", "\"@\"\n"}
+
+func roleDoc(t *rapid.T, frag string, label string) []byte {
+	return []byte(strings.ReplaceAll(rapid.SampledFrom(roles).Draw(t, label), "@", frag))
+}
+
 var extMarkers = []string{"<table", "footnote", "<del", "<input", "<dl", "<sup"}
 
 func drawDoc(t *rapid.T, label string) []byte {
@@ -136,7 +145,12 @@ func TestHistory(t *testing.T) {
 		nd := rapid.IntRange(2, 6).Draw(t, "ndocs")
 		paired := false
 		// the first two documents are a definer/user pair most of the time
-		if rapid.IntRange(0, 3).Draw(t, "pair") != 0 {
+		if k := rapid.IntRange(0, 5).Draw(t, "pair"); k == 5 {
+			f := rapid.SampledFrom(fragments).Draw(t, "frag")
+			c.B("d0", roleDoc(t, f, "role0")).B("d1", roleDoc(t, f, "role1"))
+			paired = true
+			kit.R.Class("role-swap-pair")
+		} else if k != 0 {
 			p := rapid.SampledFrom(pairs).Draw(t, "pairsel")
 			c.B("d0", []byte(p[0])).B("d1", []byte(p[1]))
 			paired = true
